@@ -452,10 +452,55 @@ func execC03(t *testing.T, c *Case) *Verdict {
 			check("end of run")
 		}
 		for i := range progs {
-			if g := hashGraph(progs[i].nodes); g != graphs[i] {
-				e.violate("expression-graph", "expression-changed", fmt.Sprintf("the compiled expression %q is not the same after the evaluations (a node's fields changed)", c.Programs[i].Src))
-			}
 			v.Stats.probe("expression-graph-checked")
+			if g := hashGraph(progs[i].nodes); g == graphs[i] || !progs[i].ok() || progs[i].fp == nil {
+				continue
+			}
+			// Fields of the compiled nodes changed. "Unchanged" is read observably: a value filled in
+			// lazily (under a sync.Once, say) that never alters behaviour is not a violation - so the
+			// used expression is compared, operation by operation on fresh inputs, with a fresh compile.
+			v.Stats.probe("expression-graph-fields-changed")
+			fresh := compile(c.Programs[i], nil)
+			differs := ""
+			for ci := range c.Clients {
+				for oi := range c.Clients[ci] {
+					op := &c.Clients[ci][oi]
+					if op.Prog != i || differs != "" {
+						continue
+					}
+					run := func(p *compiled) string {
+						in2, err := buildInputs(c)
+						if err != nil || !p.ok() || p.fp == nil {
+							return "unavailable"
+						}
+						oc := newOpCtx(0)
+						r.setRootOp(oc)
+						defer r.setRootOp(nil)
+						opts, _, _ := in2.buildEvalOpts(op.Opts, nil)
+						out := ""
+						func() {
+							defer func() {
+								if pv := recover(); pv != nil {
+									out = "panic(" + maskPtr(fmt.Sprint(pv)) + ")"
+								}
+							}()
+							res, err := p.fp.Evaluate(pickResources(op, in2.resources), opts...)
+							if err != nil {
+								out = canonErr(err)
+							} else {
+								out = canonCollection(in2.nodeIdx, res)
+							}
+						}()
+						return fmt.Sprintf("%s/%d", out, oc.nodes)
+					}
+					if a, b := run(progs[i]), run(fresh); a != b {
+						differs = fmt.Sprintf("client %d op %d: the used expression gives %s, a fresh compile gives %s", ci, oi, short(a, 200), short(b, 200))
+					}
+				}
+			}
+			if differs != "" {
+				e.violate("expression-graph", "expression-changed", fmt.Sprintf("the compiled expression %q no longer behaves like a fresh compile of the same source after the evaluations (fields of its nodes changed): %s", c.Programs[i].Src, differs))
+			}
 		}
 		for ci := range results {
 			outs = append(outs, strings.Join(results[ci], "|"))
